@@ -98,6 +98,10 @@ def gen_case(rng, scale=1):
         o["only_snvs"] = rng.random() < 0.5
     o["bad_sample"] = rng.random() < 0.04
     o["use_ped_samples"] = bool(n_trios) and not o["sample_sel"] and not o["bad_sample"] and rng.random() < 0.3
+    # coordinate boundaries (round 10): a variant at the FIRST base of every contig (POS 1 = 0-based position 0, the only
+    # position / component name that is falsy in Python) and / or at its LAST base, covered by reads that reach the contig
+    # end, and always with a co-located record (mostly a second SNV behind it: the duplicate-position skip at position 0)
+    v["edge"] = rng.choice([None, None, "first", "first", "both", "last"])
     return case
 
 
@@ -194,8 +198,63 @@ def coloc_gt(rng, n_alt, het_prob=0.85):
     return rng.choice(["1/1", "0/0", "1|1", "./.", "0/.", "."])
 
 
+def edge_positions(edge, seq):
+    return ([0] if edge in ("first", "both") else []) + ([len(seq) - 1] if edge in ("last", "both") else [])
+
+
+def edge_scenario(case):
+    """the scenario of the case; with `edge`: every contig additionally has a variant at its first and / or last base (the
+    shared generator keeps a margin of 30 bases), and every sample has reads of both haplotypes that begin at the first /
+    end at the last base (reads drawn uniformly practically never do), so that these variants are phased like any other"""
+    edge = case["vcf"].get("edge")
+    if not edge:
+        return PedScenario(random.Random(case["gen_seed"]), **case["params"])
+    orig = sim.make_variants
+
+    def with_edges(rng, chrom, refseq, n, **kw):
+        vs = orig(rng, chrom, refseq, n, **kw)
+        kinds = list(kw.get("kinds", ("snv",)))
+        if edge in ("first", "both") and (not vs or vs[0].pos > 25):
+            v0 = sim.make_variant(rng, chrom, refseq, 0, rng.choice(kinds + ["snv"])) or sim.make_variant(rng, chrom, refseq, 0, "snv")
+            vs = [v0] + vs
+        if edge in ("last", "both") and (not vs or vs[-1].pos + len(vs[-1].ref) < len(refseq) - 25):
+            vs = vs + [sim.make_variant(rng, chrom, refseq, len(refseq) - 1, "snv")]
+        return vs
+    sim.make_variants = with_edges
+    try:
+        sc = PedScenario(random.Random(case["gen_seed"]), **case["params"])
+    finally:
+        sim.make_variants = orig
+    r = random.Random(case["gen_seed"] ^ 0xED6E)
+    k = 0
+    for s in sc.samples:
+        for name, seq in sc.contigs.items():
+            L = len(seq)
+            for h in (0, 1, 0, 1, r.randrange(2)):
+                rl = min(L, r.randrange(110, 320))
+                for st, en in ([(0, rl)] if edge in ("first", "both") else []) + ([(L - rl, L)] if edge in ("last", "both") else []):
+                    hr = sim.hap_read(seq, sc.variants[name], sc.haps[(s, name)][h], st, en)
+                    if hr is None:
+                        continue
+                    start, cigar, q, covered = hr
+                    k += 1
+                    sc.reads.append({"name": f"e{k}_{s}_h{h}", "chrom": name, "start": start, "cigar": cigar, "seq": q,
+                                     "rg": "rg_" + s, "sample": s, "hap": h, "covered": covered, "mapq": 60})
+    return sc
+
+
+# what stands next to a variant at a contig boundary: mostly a second SNV behind it (the plain duplicate position)
+EDGE_DECK = [("snv", "behind")] * 6 + [(k, sd) for k in COLOC_KINDS for sd in ("front", "behind")]
+
+
+def map_edge(rng, v):
+    if v.get("edge_fixed"):
+        return tuple(v["edge_fixed"])
+    return rng.choice(EDGE_DECK)
+
+
 def build_inputs(case, d):
-    sc = PedScenario(random.Random(case["gen_seed"]), **case["params"])
+    sc = edge_scenario(case)
     rng = random.Random(case["gen_seed"] ^ 0xC04)
     v = case["vcf"]
     info_keys = rng.sample(["DP", "AF", "XR", "XS", "DB"], v["n_info"])
@@ -206,7 +265,7 @@ def build_inputs(case, d):
     fmt_keys = rng.sample(fmt_pool, min(v["n_fmt"], len(fmt_pool)))
     pre_of = {s: {"none": None, "PS": "PS", "HP": "HP", "per-sample": ["PS", "HP", None][i % 3]}[v["pre"]]
               for i, s in enumerate(sc.samples)}
-    use_ps = any(p == "PS" for p in pre_of.values()) or v["decoys"] or bool(v.get("coloc"))
+    use_ps = any(p == "PS" for p in pre_of.values()) or v["decoys"] or bool(v.get("coloc")) or bool(v.get("edge"))
     use_hp = any(p == "HP" for p in pre_of.values())
     keys = ["GT"] + fmt_keys + (["PS"] if use_ps else []) + (["HP"] if use_hp else [])
     recs, deck = [], []
@@ -253,7 +312,8 @@ def build_inputs(case, d):
                                                   "PS": rng.choice(["66", "."]), "HP": "."}, 2) for _ in sc.samples],
                              **site_extras(2)))
         behind = []
-        if v.get("coloc") and rng.random() < v["coloc"]:
+        at_edge = bool(v.get("edge")) and r["pos"] in edge_positions(v["edge"], sc.contigs[r["chrom"]])
+        if (v.get("coloc") and rng.random() < v["coloc"]) or at_edge:
             # (kind, side) combinations are dealt round-robin from a shuffled deck: one case of ~16 records sees them all
             # (`coloc_fixed`: hand-written corpus cases name the combinations themselves)
             if not deck and v.get("coloc_fixed"):
@@ -261,8 +321,12 @@ def build_inputs(case, d):
             if not deck:
                 deck.extend((k, sd) for k in COLOC_KINDS for sd in ("front", "behind"))
                 rng.shuffle(deck)
-            kind, side = deck.pop()
+            kind, side = map_edge(rng, v) if at_edge else deck.pop()
             both = [(kind, side)] + ([(rng.choice(COLOC_KINDS), "behind" if side == "front" else "front")] if rng.random() < 0.25 else [])
+            if at_edge and not v.get("edge_fixed") and rng.random() < 0.4:
+                # three or four records at the boundary position: a record of a skipped kind BETWEEN two SNVs as well
+                both.append((rng.choice(["multi", "noalt", "many", "sym", "del"]), "behind"))
+                both.append(("snv", "behind"))
             for kind, side in both:
                 site = coloc_record(rng, kind, r, sc.contigs[r["chrom"]])
                 if site is None:
